@@ -82,14 +82,20 @@ Definition func_header (f : function) : str :=
    else if fn_ret_err f then s2b "(err error) {" ++ nl
    else s2b "{" ++ nl).
 
+(** in arg style the destination parameter is a pointer whatever the method declared *)
+Definition hook_dst (f : function) : gvar :=
+  if str_eqb (fn_style f) style_arg
+  then {| v_name := v_name (fn_dst f); v_type := v_type (fn_dst f); v_pointer := true; v_external := v_external (fn_dst f) |}
+  else fn_dst f.
+
 Definition func_to_string (f : function) : str :=
   concat_str (List.map (fun c => c ++ nl) (fn_comments f)) ++
   func_header f ++
   (if str_eqb (fn_style f) style_return && v_pointer (fn_dst f) then
      v_name (fn_dst f) ++ s2b " = &" ++ v_type (fn_dst f) ++ s2b "{}" ++ nl
    else []) ++
-  (match fn_pre f with Some m => manipulator_to_string m (fn_src f) (fn_dst f) (fn_args f) | None => [] end) ++
+  (match fn_pre f with Some m => manipulator_to_string m (fn_src f) (hook_dst f) (fn_args f) | None => [] end) ++
   concat_str (List.map (assignment_to_string f) (fn_assignments f)) ++
-  (match fn_post f with Some m => manipulator_to_string m (fn_src f) (fn_dst f) (fn_args f) | None => [] end) ++
+  (match fn_post f with Some m => manipulator_to_string m (fn_src f) (hook_dst f) (fn_args f) | None => [] end) ++
   (if fn_ret_err f || str_eqb (fn_style f) style_return then nl ++ s2b "return" ++ nl else []) ++
   s2b "}" ++ nl ++ nl.
